@@ -120,8 +120,7 @@ def r2(ctx, prog):
         def bounded(x, pol):
             if not isinstance(x, int):
                 return False
-            c = rl.norm_cmp(f, x, pol)
-            return c is not None and rl.var_of(f, c[1]) == rt and c[0] in ("<=", "<") and f.cv(c[2]) is not None and f.cv(c[2]) <= 8
+            return rl.establishes(f, x, pol, "<=", rl.is_local(f, rt), rl.is_const(f, lambda v: v <= 8))
         ok = cfg.guarded(cfg.pt(rec[0]), bounded) is None and rl.canon(f, rl.arg(f, rec[0], 4)).replace(" ", "") in ("($4+1)", "(1+$4)")
     ctx.check(R, ok, f.where(), "the retry is a recursive call with retries+1, guarded by a constant bound", key="C14.R2:retry")
     ctx.floor(R, 7)
@@ -203,16 +202,16 @@ def r5(ctx, prog):
     def full(x, pol):
         if not isinstance(x, int):
             return False
-        c = rl.norm_cmp(f, x, pol)
-        return c is not None and rl.var_of(f, c[1]) == f.param_id(0) and c[0] == "<" and f.cv(c[2]) == bits
+        return rl.establishes(f, x, pol, "<", rl.is_local(f, f.param_id(0)), rl.is_const(f, lambda v: v <= bits))
     ok = bool(general) and f.cfg.guarded(f.cfg.pt(general[0]), full) is None
     ctx.check(R, ok, f.where(), "the shift is only evaluated for count < %d (a shift by the full width is undefined)" % bits, key="C14.R5:shift")
     g = prog.fn("mi_bitmap_mask_across")
     pre = [dd for _, dd in rl.local_decl(g, lambda dd: "init" in dd and rl.canon(g, dd["init"]).replace(" ", "").startswith("(%d-" % bits))]
     ctx.check(R, len(pre) == 1, g.where(), "pre_bits = MI_BITMAP_FIELD_BITS - bitidx", key="C14.R5:pre")
     cnt = g.param_id(2)
+    pre_txt = rl.canon(g, pre[0]["init"]).replace(" ", "") if pre else "?"
     defs = [(op, rl.canon(g, rhs).replace(" ", "") if rhs is not None else None) for a, rhs, op in g.var_defs(cnt)]
-    ok = ("-=", pre[0]["n"] if pre else "?") in defs and ("%=", str(bits)) in defs
+    ok = ("-=", pre_txt) in defs and ("%=", str(bits)) in defs
     ctx.check(R, ok, g.where(), "count -= pre_bits; mid = count / BITS; count %%= BITS (%s)" % defs, key="C14.R5:split")
     mid = [dd for _, dd in rl.local_decl(g, lambda dd: "init" in dd and rl.canon(g, dd["init"]).replace(" ", "") == "($2/%d)" % bits)]
     rets = [r for r in g.all(kind="ReturnStmt") if g.cv(g.nodes[r].get("val", -1)) is None]
